@@ -1,5 +1,5 @@
 # C12 - serialiser: the escaping layer
-CLAIMS = {'formatter': 'XMLFormatter::formatBuf/specialFormat/handleUnEscapedChars/writeCharRef/getCharRef/inEscapeList with a 7-bit transcoder stub (US-ASCII contract): output bytes = reference serialisation for every buffer of N units, every escape mode, XML 1.0/1.1; no access outside the buffer'}
+CLAIMS = {'formatter_pair': 'as formatter for a buffer that is exactly one surrogate pair (every supplementary character x escape mode x XML version): written as ONE character reference', 'formatter': 'XMLFormatter::formatBuf/specialFormat/handleUnEscapedChars/writeCharRef/getCharRef/inEscapeList with a 7-bit transcoder stub (US-ASCII contract): output bytes = reference serialisation for every buffer of N units, every escape mode, XML 1.0/1.1; no access outside the buffer'}
 ASSUMPTIONS = ['input is well-formed UTF-16', 'target = byte collector', 'XMLFormatter object built field by field (constructor needs the transcoding service)', 'fixed-block memory manager for the cached entity references', 'hook: the formatter\'s 16 KB staging buffer instantiated at 64 bytes (XERCES_VERIF_TMPBUF); the code is parametric in this constant']
 T10 = '_ZN11xercesc_4_010XMLChar1_019fgCharCharsTable1_0E'
 T11 = '_ZN11xercesc_4_010XMLChar1_119fgCharCharsTable1_1E'
@@ -7,6 +7,9 @@ HARNESSES = [
  dict(name='formatter', entry='harness_formatter', srcs=['C12/formatter.cpp'],
       tus=['framework/XMLFormatter.cpp', 'util/XMLString.cpp', 'util/XMLChar.cpp'], const_tables=[T10, T11],
       defs={'quick': {'N': 1, 'XERCES_VERIF_TMPBUF': 64}, 'thorough': {'N': 2, 'XERCES_VERIF_TMPBUF': 64}}, unwind={'quick': 2, 'thorough': 2}, unwind_cap=24, timeout={'quick': 900, 'thorough': 3000}, mem_gb=24),
+ dict(name='formatter_pair', entry='harness_formatter', srcs=['C12/formatter.cpp'],
+      tus=['framework/XMLFormatter.cpp', 'util/XMLString.cpp', 'util/XMLChar.cpp'], const_tables=[T10, T11],
+      defs={'all': {'N': 2, 'PAIR': 1, 'XERCES_VERIF_TMPBUF': 64}}, unwind={'quick': 2, 'thorough': 2}, unwindset={'__vx_memcpy.0': 14, '__vx_memmove.0': 14, '__vx_memset.0': 14}, unwind_cap=24, timeout={'quick': 900, 'thorough': 3000}, mem_gb=24),
 ]
 LEVEL_TEXT = ('Bounded model checking of the real escaping/transcoding layer of the serialiser against a reference serialisation, for ALL inputs of N UTF-16 units x escape modes x XML versions: '
               'XMLFormatter escapes exactly the characters its mode requires and writes every unrepresentable code point as a character reference (supplementary characters as one reference).')
